@@ -7,7 +7,7 @@ from oracle_util import *  # noqa
 from protocol import from_real, KEY_IDX
 
 ID = "C13"
-LEAN_MODULE = ["SCoda.Props.C13", "SCoda.Props.C15"]
+LEAN_MODULE = ["SCoda.Props.C13", "SCoda.Props.C15", "SCoda.Props.C12"]
 CLAUSES = [
     ("every created event sits at roundHalfEven(prefix sum of the deltas * 24 / file_ppq): error <= 1/2 tick, exact on integers, and the running file tick is "
      "the plain sum of deltas — no rounding is fed back (no accumulation)",
@@ -19,8 +19,11 @@ CLAUSES = [
      ["SCoda.C13.signatures_to_meta_fields", "SCoda.C13.signatures_to_meta_partial", "SCoda.C13.default_signature"]),
     ("tracks outside every group contribute no notes", ["SCoda.C13.outside_group_no_notes"]),
     ("an invalid meta target index is rejected (ValueError; IndexError only for an empty group)", ["SCoda.C13.bad_target"]),
-    ("end-to-end composition: the sounding set of loaded sequence g is the union over the group's tracks of their rounded note events "
-     "(needs per-track normalise + group merge composed; known finding D17 for zero-length notes)", None),
+    ("end-to-end composition (per-track insort, normalise, group merge, meta merge, final read-out): for a valid load with every track in at most one "
+     "group, non-negative deltas and per track well-formed rounded note events of positive length, the sounding set of loaded sequence g is exactly the "
+     "union over the group's tracks of their note events at the rounded exact positions; every signature on the meta target is the default 4/4 or comes "
+     "from a considered track at its rounded position; the other sequences carry no signature (zero-length notes after rescaling: known finding D17, outside GoodTrack)",
+     ["SCoda.C13.load_sounding", "SCoda.C13.trackMsgs_sorted", "SCoda.C13.load_signatures", "SCoda.C13.signatures_only_on_target", "SCoda.C13.exTrack_msgs"]),
 ]
 RULE = ("MIDI files written with mido: resolutions from {1,7,24,48,96,100,480,960,997,32767}, 1-4 tracks, long delta "
         "patterns (drift), note-on velocity 0 as note-off, all groupings, meta selections and target indices, all 30 key names; "
